@@ -81,7 +81,7 @@ def main():
             mine = [int(x) for x in a.items.split(",") if x != ""]
         else:
             mine = [i for i in range(len(items)) if i % a.nshards == a.shard]
-        budget = 45 if a.tier == "quick" else 240
+        budget = 5 if os.environ.get("VERIF_STOP_FILE") else (45 if a.tier == "quick" else 240)
         for i in mine:
             name, variant, r, nrep, nex = items[i]
             sub = subs[name]
